@@ -8,3 +8,14 @@ impl vstd::std_specs::convert::FromSpecImpl<HttpError> for Response {
     open spec fn obeys_from_spec() -> bool { false }
     uninterp spec fn from_spec(e: HttpError) -> Response;
 }
+// ---- the documented class of each error (from the property: client-caused errors get their specific 400 / 413 / 431 / 505,
+// server-caused errors a 500 whose body is the fixed text)
+pub open spec fn server_caused(e: HttpError) -> bool {
+    e is AlreadyGotBody || e is BodyNotAvailable || e is BodyNotRead || e is CacheDirNotConfigured || e is DuplicateContentLengthHeader
+    || e is DuplicateContentTypeHeader || e is DuplicateTransferEncodingHeader || e is ErrorReadingFile || e is ErrorReadingResponseBody
+    || e is ErrorSavingFile || e is HandlerDeadlineExceeded || e is ResponseAlreadySent || e is ResponseNotSent || e is TimerThreadNotStarted
+    || e is UnwritableResponse
+}
+pub open spec fn err_code(e: HttpError) -> u16 {
+    if server_caused(e) { 500 } else if e is BodyTooLong { 413 } else if e is HeadTooLong { 431 } else if e is UnsupportedProtocol { 505 } else { 400 }
+}
